@@ -226,14 +226,25 @@ def run(chk, ctx) -> None:
         ok = False
         got = 'no `if player_index is None:` default found'
         site = vf.node
+        def from_state(t):
+            return (t[0] == 'call' and t[1] == 'next' and t[2] and t[2][0][0] == 'self') or t[0] == 'self'
+        absent = (T.spec('player_index is None', boolean=True), T.spec('not player_index', boolean=True))
         for node in walk_no_nested(vf.node):
-            if isinstance(node, ast.If) and T.cond(node.test) == T.spec('player_index is None', boolean=True):
+            # (what an automated call passes is None: how player 0 is told from "no player" is C08.none_default, not this clause)
+            if isinstance(node, ast.If) and T.cond(node.test) in absent:
                 site = node
                 for a in [s2 for s2 in ast.walk(node) if isinstance(s2, ast.Assign) and isinstance(s2.targets[0], ast.Name) and s2.targets[0].id == 'player_index']:
                     t = T.norm(a.value)
                     got = T.show(t)
-                    if (t[0] == 'call' and t[1] == 'next' and t[2] and t[2][0][0] == 'self') or t[0] == 'self':
+                    if from_state(t):
                         ok = True
+            if isinstance(node, ast.Assign) and isinstance(node.targets[0], ast.Name) and node.targets[0].id == 'player_index' \
+                    and isinstance(node.value, ast.BoolOp) and isinstance(node.value.op, ast.Or) and len(node.value.values) == 2 \
+                    and isinstance(node.value.values[0], ast.Name) and node.value.values[0].id == 'player_index':
+                t = T.norm(node.value.values[1])
+                got = T.show(t)
+                site = node
+                ok = ok or from_state(t)
         chk.ob('C09.default_choice', f'State.{v}', ok, ctx.loc(vf, site),
                'the default player is the first pending one, read from the state under an `is None` test (not from the caller or the automation)', got=got)
     chk.floor('C09.default_choice', 7)
